@@ -38,6 +38,7 @@ import (
 	"crypto/sha1"
 	"encoding/base64"
 	"fmt"
+	"runtime"
 	"strings"
 	"sync"
 	"time"
@@ -475,8 +476,13 @@ func lifeReply(life int, req *dns.Msg) *dns.Msg {
 	return rep
 }
 
-func runRestartOne(r *Rng, udp bool) {
+// flush: two garbage collections between the lives, which empty every sync.Pool:
+// the new life cannot be handed a receive buffer left behind by the life before.
+func runRestartOne(r *Rng, udp bool, flush bool) {
 	transport := map[bool]string{true: "scripted-udp", false: "scripted-tcp"}[udp]
+	if udp && !flush {
+		transport += ",no-gc-between-lives"
+	}
 	lives := 2 + r.Intn(3)
 	udpSizes := []int{0, 512, 700, 1232, 4096, 8192}
 	srv := &dns.Server{MaxTCPQueries: -1}
@@ -724,9 +730,18 @@ func runRestartOne(r *Rng, udp bool) {
 		mu.Unlock()
 		stat["restart_lives"]++
 		prevSize, prevSecret = size, secret
+		if flush {
+			runtime.GC()
+			runtime.GC()
+		}
 	}
 	stat["restart_servers_"+transport]++
-	if len(x.bad) > 0 {
+	if len(x.bad) > 0 && udp && !flush {
+		// kept apart: here the later life can also be handed buffers that the earlier life
+		// left in the pool
+		Viol("C12/Crosstalk/restarted-server-buffers-left-in-pool", "a UDP Server value shut down, reconfigured and started again at once (no garbage collection in between): in its later life a request within the configured size did not reach that life's handler intact, or its client did not receive that handler's reply",
+			restartIn{transport, lifeDesc, x.wire, x.bad})
+	} else if len(x.bad) > 0 {
 		Viol("C12/Crosstalk/restarted-server", "a Server value shut down, reconfigured and started again: in its later life a request within the configured size did not reach that life's handler intact, or its client did not receive that handler's reply",
 			restartIn{transport, lifeDesc, x.wire, x.bad})
 	}
@@ -747,6 +762,6 @@ func runStreamSeq(r0 *Rng, tier string) {
 		runHeldReadsOne(r, i < 10)
 	}
 	for i := 0; i < 16*k; i++ {
-		runRestartOne(r, i%4 != 3)
+		runRestartOne(r, i%4 != 3, i%4 != 0)
 	}
 }
